@@ -197,4 +197,38 @@ Proof.
       apply others_kept_frame; [exact Hi2|]. apply (frun_untouched (other cp) _ _ _ _ (unlink_quiet_other cp n _) Hrest).
 Qed.
 
+
+(* ---------- removals under faults ---------- *)
+(* removal of content by address: only that content path can change *)
+Theorem remove_hash_faulty_others i f r f' :
+  frun (remove_hash i) f r f' ->
+  forall l, (forall cp, content_path i = Some cp -> l <> InCache cp) -> lookup f' l = lookup f l.
+Proof.
+  intros Hr l Hl.
+  apply (frun_untouched (fun x => x = l) (remove_hash i) f r f'); [|exact Hr|reflexivity].
+  unfold remove_hash, with_cpath. destruct (content_path i) as [cp|]; [|exact I].
+  apply all_steps_step_ok. intros x Hx ->. cbn [may_touch] in Hx. exact (Hl cp eq_refl Hx).
+Qed.
+
+(* removal of a key (tombstone): unchanged or complete, other keys and every non-index location untouched *)
+Theorem delete_faulty_others f key now r f' :
+  IndexInv f -> wf_rec hash (smeta_of key wopts0 now) -> PrefixFree hash (encode_smeta (smeta_of key wopts0 now)) ->
+  frun (delete hash key now) f r f' ->
+  IndexInv f' /\
+  (forall k, k <> key -> abs_idx hash f' k = abs_idx hash f k) /\
+  (forall l, ~ is_index l -> lookup f' l = lookup f l) /\
+  (abs_idx hash f' key = abs_idx hash f key \/ abs_idx hash f' key = None).
+Proof.
+  intros Hi Hwf Hpf Hr. unfold delete, rbind in Hr. apply frun_bind in Hr as [r1 [f1 [Hins Hrest]]].
+  assert (f' = f1) as -> by (destruct r1; apply frun_ret in Hrest as [_ ->]; reflexivity).
+  destruct (insert_faulty hash f key wopts0 now r1 f1 Hi Hwf Hpf Hins) as [[Hs|Hcomp] _].
+  - pose proof Hs as [Hi' [_ Hnon]]. split; [exact Hi'|]. split; [intros k _; apply (SameIdx_abs hash); exact Hs|].
+    split; [exact Hnon|left; apply (SameIdx_abs hash); exact Hs].
+  - subst f1. assert (wf_sri_opt wopts0) as Hso by (intros i Ei; discriminate Ei).
+    destruct (insert_abs hash f key wopts0 now Hi Hwf Hso) as [Hi' [_ [Habs Hnon]]].
+    split; [exact Hi'|]. split; [intros k Hne; rewrite Habs; apply bytes_eqb_neq in Hne; rewrite Hne; reflexivity|].
+    split; [intros l Hl; apply Hnon; intros q X; apply Hl; exists q; exact X|].
+    right. rewrite Habs, (proj2 (bytes_eqb_eq key key) eq_refl). reflexivity.
+Qed.
+
 End FF.
